@@ -166,4 +166,11 @@ var plans = map[string]plan{
 		Rule:     "cases are Swagger 2.0 documents of the convertible fragment built by a dedicated generator: primitive and array non-body parameters with every constraint field, one body or n form parameters (incl. file), shared parameters / responses / definitions used through references, nested and allOf schemas, x-nullable, discriminator, additionalProperties (bool, schema, reference), host / basePath / schemes, consumes / produces, basic / apiKey / the four OAuth2 flows, root and operation security. Checked: ToV3 succeeds and the result validates; the abstract API model (paths x methods x operationId; parameters with requiredness and constraint tuple; body or form fields; responses with description, headers, schema; definitions; servers; security schemes and requirements), extracted independently from the raw v2 JSON and from the marshalled v3 JSON with shared components dereferenced one level, is equal; FromV3(ToV3(doc)) has the same model again and only Swagger 2 reference prefixes. non-trivial = (a shared component used through a reference and >= 3 constraint fields) or form parameters or OAuth2. distinct = FNV-64a of the canonical case JSON.",
 		Assume:   []string{"collectionFormat, descriptions of parameters and x- bookkeeping extensions of the converter are not part of the model", "for media types the first content entry (sorted) carries the schema of a body or response"},
 	},
+	"C15": {
+		Race:     true,
+		Quick:    []stage{{Name: "rapid", Test: "TestRapid", Shards: 8, Checks: 12}},
+		Thorough: []stage{{Name: "rapid", Test: "TestRapid", Shards: 8, Checks: 400}},
+		Rule:     "cases are workloads: G in {2,4,8,16} goroutines x 10-60 operations each from {FindRoute on the gorilla/mux and the legacy router, ValidateRequest with defaults on / skipped (fail-first and multi-error), ValidateResponse, VisitJSON in default / multi-error / as-request-with-defaults mode, openapi3gen.NewSchemaRefForValue} over one shared validated document (patterns, uniqueItems, formats, oneOf, object-valued and nested defaults) and its two routers, released together behind a barrier, GOMAXPROCS in {2,4,16}; every case uses patterns and Go types never seen before in the process, so first-use paths run concurrently. The binary is built with -race (halt_on_error). Checked: no race report; every operation's verdict (incl. the forwarded body and query) equals the verdict of the same operation run alone on a second document loaded from the same bytes; the shared document serialises identically before and after. non-trivial = >= 2 goroutines and >= 20 operations. distinct = FNV-64a of the canonical case JSON.",
+		Assume:   []string{"the race detector reports only races between accesses that were actually executed; interleavings are sampled, not covered", "a race aborts the shard: the race report text is the replay artefact and is not shrunk"},
+	},
 }
